@@ -14,7 +14,7 @@ import shutil
 import subprocess
 import sys
 
-WT = "/tmp/vs"
+WT = os.environ.get("VS_WT", "/tmp/vs")  # VS_WT: verify inside another scratch worktree (e.g. the author's, with a warm target dir)
 
 
 def sh(cmd, cwd=WT, timeout=3600):
@@ -45,7 +45,7 @@ def main():
         rc, out = sh(["git", "-C", "/repo", "worktree", "add", "--detach", WT, "HEAD"], cwd="/")
         assert rc == 0, out
     sh(["git", "checkout", "--", "."])
-    sh(["git", "clean", "-fdq", "-e", "target"])
+    sh(["git", "clean", "-fdq", "-e", "target", "-e", "seeded", "-e", "TASK.md", "-e", "PROPERTY.json"])
     head = subprocess.check_output(["git", "-C", "/repo", "rev-parse", "HEAD"], text=True).strip()
     sh(["git", "checkout", "-q", "--detach", head])
     patch = os.path.join(src, "patch.diff")
